@@ -264,8 +264,12 @@ def augment_structured(lines, rng, per_op=40, max_digits=24):
                     v = structured_value(rng, rng.choice([1, 2, 2, 3, 4, 5, 8, 9, 16, 17]))
                 if j >= 1 and rng.randrange(2):
                     a = vals[0]
+                    nd = (a.bit_length() + 63) // 64
+                    keep = rng.randrange(1, nd + 1) if nd else 0        # same top `keep` digits, different lower digits
+                    lowbits = 64 * (nd - keep)
+                    shared = ((a >> lowbits) << lowbits) | (rng.randrange(1 << lowbits) if lowbits else 0)
                     v = rng.choice([a, a + 1, max(a - 1, 0), a * rng.choice([2, 3, 5, 1 << 64, (1 << 64) + 1, MAX]), a << (64 * rng.randrange(1, 3)),
-                                    a >> 64, a >> 1, a * v if v.bit_length() < 400 else a, a ^ 1, a | 1])
+                                    a >> 64, a >> 1, a * v if v.bit_length() < 400 else a, a ^ 1, a | 1, shared, shared, shared])
                     if rng.randrange(4) == 0:
                         vals[0], v = v, a               # the related value first
                 vals.append(v)
